@@ -17,7 +17,10 @@ def pupils(tier):
     return s
 
 
-def make(pupil, seed, power=None, variant=None):
+DEC = dict(dx=5e-3, z=10.0, wl=6.5e-7)          # decimal (not dyadic) physical constants: 1/alpha lands an ulp off the integer period
+
+
+def make(pupil, seed, power=None, variant=None, phys=None):
     """variant 'signed': amplitude with sign flips, negative on the rim of the support; 'seg3': three segments"""
     import lentil
     amp, opd, _ = op.pupil_arrays(pupil, 'cornerless' if min(pupil) > 2 else 'full', seed, tag=pupil[0] * 10 + pupil[1])
@@ -35,6 +38,9 @@ def make(pupil, seed, power=None, variant=None):
         kw['mask'] = m3[[k for k in range(3) if m3[k].any()]]
     if power is not None:
         amp = lentil.normalize_power(amp, power)
+    if phys is not None:
+        w = lentil.Wavefront(phys['wl']) * lentil.Pupil(amplitude=amp.copy(), opd=opd.copy(), pixelscale=phys['dx'], focal_length=phys['z'], **kw)
+        return w, op.phasor(amp, opd, WL)
     w = lentil.Wavefront(WL) * lentil.Pupil(amplitude=amp.copy(), opd=opd.copy(), pixelscale=DX, focal_length=Z, **kw)
     return w, op.phasor(amp, opd, WL)
 
@@ -47,11 +53,16 @@ def du_for(N, os_):
 def chk_full(case, acc, seed):
     import lentil
     pupil, N, os_, prop = tuple(case['pupil']), tuple(case['N']), case['os'], case['prop']
-    w, fin = make(pupil, seed, case.get('power'), case.get('variant'))
+    phys = DEC if case.get('sampling') == 'decimal' else None
+    w, fin = make(pupil, seed, case.get('power'), case.get('variant'), phys)
     pin = float(np.sum(np.abs(fin) ** 2))
     if case.get('power') is not None and abs(pin - case['power']) > 1e-12 * case['power']:
         acc.violation('normalize_power:value', case, f'sum|amp|^2 = {pin!r} != {case["power"]}')
     du = du_for(N, os_)
+    if phys is not None:
+        du = tuple(phys['wl'] * phys['z'] * os_ / (phys['dx'] * n_) for n_ in N)
+        below = [1 / (phys['dx'] * d_ / (phys['wl'] * phys['z'] * os_)) < n_ for d_, n_ in zip(du, N)]
+        acc.cls('decimal:reciprocal-below-integer' if any(below) else 'decimal:reciprocal-at-or-above')
     try:
         if prop == 'dft':
             out = lentil.propagate_dft(w, du, shape=(N[0] // os_, N[1] // os_), oversample=os_)
@@ -150,6 +161,15 @@ def chk_norm(case, acc, seed):
         else:
             m = np.ones(big); m[0, :3] = 0; m[7, 7] = 0
             a = m.astype({'bool-mask': bool, 'uint8-mask': np.uint8, 'int16-mask': np.int16}[kind])
+        if kind in ('real', 'complex'):
+            # faint and bright inputs: the result has the requested power whatever the input's own power is
+            for e in (-200, -60, -30, 40, 200):
+                rs = lentil.normalize_power(a * 2.0 ** e, p)
+                gs = float(np.sum(np.abs(rs) ** 2))
+                if not abs(gs - p) <= 1e-12 * p:
+                    acc.violation(f'normalize_power:value:{kind}:scaled', dict(case, payload=kind, factor=f'2^{e}'), f'input scaled by 2^{e}: power {gs!r} != {p}')
+                    break
+            acc.cls('norm:scaled')
         a0 = np.array(a, copy=True)
         r = lentil.normalize_power(a, p)
         got = float(np.sum(np.abs(r) ** 2))
@@ -181,6 +201,9 @@ def t_pupil(arg, acc):
                 acc.transitions += 2
                 chk_full({'kind': 'full', 'pupil': pupil, 'N': (Nr, Nc), 'os': os_, 'prop': 'fft'}, acc, seed)
                 chk_full({'kind': 'full', 'pupil': pupil, 'N': (Nr, Nc), 'os': os_, 'prop': 'fft-scratch'}, acc, seed)
+            for os_ in (1, 2, 3):
+                for prop in ('fft',) + (('dft',) if Nr % os_ == 0 and Nc % os_ == 0 else ()):
+                    chk_full({'kind': 'full', 'pupil': pupil, 'N': (Nr, Nc), 'os': os_, 'prop': prop, 'sampling': 'decimal'}, acc, seed)
             for p in (0.5, 1, 2, 7):
                 for prop in ('dft', 'fft'):
                     acc.transitions += 1
@@ -208,7 +231,7 @@ def run(tier, seed, acc, procs=None):
                 'mask boxes; normalize_power targets {1/2,1,2,7} on real, complex and integer arrays and through propagation.',
         'bounds': {'pupils': pupils(tier), 'period_span': 5 if tier == 'quick' else 6, 'oversample': [1, 2, 3]},
         'assumptions': ['tolerance 1e-10 relative on power sums (rounding only)'],
-        'require': {'dft:iso': 10, 'dft:aniso': 50, 'fft:iso': 10, 'fft:aniso': 50, 'fft-scratch:aniso': 50, 'nested': 20, 'normalized': 50},
+        'require': {'dft:iso': 10, 'dft:aniso': 50, 'fft:iso': 10, 'fft:aniso': 50, 'fft-scratch:aniso': 50, 'nested': 20, 'normalized': 50, 'norm:scaled': 8, 'decimal:reciprocal-below-integer': 30},
     }
 
 
